@@ -38,6 +38,9 @@ def corpus(bits8, vartrail, L):
         G("VARTRAIL", [(R.plus(A), dict(trail=R.cat(R.plus(B), NL))), (A,), (B,), (NL,)], b"ab\n")
     G("CLASSES", [(R.plus(R.cset(b"abc")),), (('set', frozenset(R.ALL - set(b"abc\n")) if bits8 else frozenset(set(range(128)) - set(b"abc\n"))),),
                   (R.cat(C_, R.opt(NL)),)], b"abcx\n")
+    # '|' actions: the rule shares the next rule's action (the generator closes the m4 quotes of an empty action itself)
+    G("FALLTHRU", [(R.cat(A, B), dict(action="|")), (R.cat(B, A), dict(action="|")), (R.plus(A),), (B, dict(action="|")), (NL, dict(action="|")),
+                   (R.cat(A, NL),)], b"ab\n")
     G("NUL", [(Z,), (R.cat(A, Z, B),), (R.plus(R.cset(b"a\0")),), (B,)], b"a\0b")
     if bits8:
         G("HIGH", [(R.lit(0x80),), (R.cat(R.lit(0xff), R.lit(0xfe)),), (R.plus(('set', frozenset(range(0xc0, 0x100)))),), (A,)], bytes([0x80, 0xff, 0xfe, 0xc1, 97]))
@@ -232,6 +235,11 @@ def run(tier):
                 if not bf["stderr"].strip():
                     ck.violation("C02:refused-silently:" + tag, "flex exited %s without a message for %s" % (bf["rc"], tag), case={"flex_args": job["flex_args"]},
                                  files={"s.l": bf["spec"]})
+                elif "m4:" in bf["stderr"] and not why:
+                    # a refusal is a diagnostic of flex about the combination; an error of the m4 pass over the generated text is a
+                    # generator malfunction whatever the back end
+                    ck.violation("C02:m4-failure:%s" % pt[5], "the m4 pass failed for %s: %s" % (tag, bf["stderr"].strip().splitlines()[-1]),
+                                 case={"flex_args": job["flex_args"], "stderr": bf["stderr"]}, files={"s.l": bf["spec"]})
                 elif why or may_refuse(*pt):
                     refused_ok += 1
                 else:
